@@ -325,9 +325,18 @@ def gen_scenario(rng: random.Random, max_ops: int, defaults) -> Tuple[List[Dict[
         # every query): the probe's own declarations must still take effect
         ops.append({"op": "handle", "who": p["who"], "backend": main, "docker": p["docker"] if rng.random() < 0.5 else None,
                     "md": [list(m) for m in p["md"]], "body": rng.choice(["plain", "plain", "undeclared", "fail_write_op"]), "outdir": True})
+    if rng.random() < 0.3:
+        # the probe's very query object has been translated before (a second .value() on one ObjectStream): translating a query must
+        # leave the caller's query as it was
+        first = dict(p)
+        first["md"] = [list(m) for m in p["md"]]
+        ops.append(first)
+        p["reuse"] = True
     ops.append(p)
     # the probe's backend is that of the executor handling it
     ops[-1]["backend"] = probe_backend(ops)
+    if len(ops) >= 2 and ops[-1].get("reuse"):
+        ops[-2]["backend"] = ops[-1]["backend"] if ops[-2]["who"] == ops[-1]["who"] != "new" else ops[-2]["backend"]
     return ops, len({o["backend"] for o in ops}) > 1
 
 
@@ -360,6 +369,9 @@ def corpus(defaults) -> List[List[Dict[str, Any]]]:
         [h("cms_aod", "plain", [["method", COLL["cms_aod"][1], "bar", "int"]]), h("cms_aod", "declared", [["method", COLL["cms_aod"][1], "bar", "int"]], who=0)],
         [h("cms_miniaod", "fail_write_op", [["method", COLL["cms_miniaod"][1], "bar", "int"]]), h("cms_miniaod", "declared", [["method", COLL["cms_miniaod"][1], "bar", "int"]], who=0)],
         [h("atlas", "plain", [["enum", "xAOD.Jet", "Color", ["Red", "Blue"]]]), h("atlas", "enum", [["enum", "xAOD.Jet", "Color", ["Red", "Blue"]]], who=0)],
+        # the very same query object translated twice (new executor each time / the same executor): its metadata still applies
+        [h("atlas", "declared", [["method", "xAOD::Jet", "bar", "int"]]), {**h("atlas", "declared", [["method", "xAOD::Jet", "bar", "int"]]), "reuse": True}],
+        [h("cms_miniaod", "declared", [["method", COLL["cms_miniaod"][1], "bar", "int"]]), {**h("cms_miniaod", "declared", [["method", COLL["cms_miniaod"][1], "bar", "int"]], who=0), "reuse": True}],
         [{"op": "create", "backend": "cms_aod"}, h("atlas"), h("cms_aod", "default", who=0)],  # h_cross (reused executor)
         [{"op": "create", "backend": "cms_aod"}, h("atlas"), h("cms_aod", "undeclared2", [["method", "xAOD::TruthParticle", "bar", "int"]])],
     ]
